@@ -154,7 +154,9 @@ func (in *Interp) goStmt(fr *Frame, env Env, g *ssa.Go) {
 				case goexit:
 					return
 				case killPath:
-					// this goroutine's path died: it simply stops
+					// the whole path of this goroutine died (a panic that is certain): report it, the
+					// others would wait for it forever
+					s.failure = in.unsupported("a goroutine's only path ended in a panic (" + in.LastKill + ")")
 				default:
 					s.failure = r
 				}
